@@ -1,42 +1,54 @@
 #!/usr/bin/env python3
-"""Build selftest/RESULTS.md from selftest/RESULTS.json and the run logs (selftest/log_*.txt)."""
+"""Build selftest/RESULTS.md: for every seeded change the FIRST run of the check of the broken property (from the run logs,
+i.e. the machinery as it was when the change arrived) and the LATEST run (selftest/RESULTS.json)."""
 import json, os, re, glob, ast
 V = os.path.dirname(os.path.dirname(os.path.abspath(__file__)))
-res = {}
-rp = os.path.join(V, 'selftest', 'RESULTS.json')
-if os.path.exists(rp):
-    for k, v in json.load(open(rp)).items():
-        own = list(v['checks'].items())
-        res[k] = {'checks': {p: (c['exit'], c['violation_keys'], c['wall_s']) for p, c in own}, 'tier': v.get('tier', 'quick')}
-for f in sorted(glob.glob(os.path.join(V, 'selftest', 'log_*.txt'))):
+first = {}
+order = ['log_round1_fix.txt', 'log_round1_fix_d7.txt', 'log_round1_seeded.txt', 'log_round2_seeded.txt', 'log_round3_seeded.txt']
+for name in order + sorted(os.path.basename(f) for f in glob.glob(os.path.join(V, 'selftest', 'log_*.txt')) if os.path.basename(f) not in order):
+    f = os.path.join(V, 'selftest', name)
+    if not os.path.exists(f):
+        continue
     for ln in open(f):
         m = re.match(r'^(\S+) (DETECTED|MISSED\(exit (\S+)\)) (\[.*\]) (\d+)\s*$', ln)
         if not m:
             continue
         sid = m.group(1)
-        if sid in res:
-            continue
-        meta = json.load(open(os.path.join(V, 'seeded', sid, 'meta.json')))
         try:
             keys = ast.literal_eval(m.group(4))
         except Exception:
             keys = [m.group(4)[:200]]
-        res[sid] = {'checks': {meta['property']: (1 if m.group(2) == 'DETECTED' else int(m.group(3)) if m.group(3).isdigit() else m.group(3), keys, int(m.group(5)))}, 'tier': 'quick'}
+        det = m.group(2) == 'DETECTED' and bool(keys)
+        if sid == 'FIX-D7' and not keys:
+            continue   # driver error (build directory pruned by a concurrent run), see DESIGN section 12
+        if sid not in first:
+            first[sid] = (det, keys, int(m.group(5)), name)
+latest = {}
+rp = os.path.join(V, 'selftest', 'RESULTS.json')
+if os.path.exists(rp):
+    for k, v in json.load(open(rp)).items():
+        meta = json.load(open(os.path.join(V, 'seeded', k, 'meta.json')))
+        c = v['checks'].get(meta['property'])
+        if c:
+            latest[k] = (c['exit'] == 1 and bool(c['violation_keys']), c['violation_keys'], c['wall_s'], v['checks'])
 lines = ['# Calibration results: seeded changes vs checks', '',
-         'Each row: a change to fastscape-lem/fastscapelib that compiles and passes the repository test-suite (confirmed in a scratch',
-         'worktree, see `seeded/<id>/meta.json`), applied to a scratch copy of `/repo/include`, and the check of the property it breaks',
-         'run against it (`selftest/run_seeded.py`). `FIX-<D>` rows are the reverts of the `fix:` commits (defects of the original tree).',
-         '', '| id | property | what it needs to manifest | check | tier | exit | violation keys reported | s |', '|---|---|---|---|---|---|---|---|']
-det = tot = 0
-for sid in sorted(res):
+         'Each row is a change to fastscape-lem/fastscapelib that compiles and passes the repository test-suite (confirmed in a scratch',
+         'worktree: `seeded/<id>/meta.json`). It is applied to a scratch copy of `/repo/include` and the quick check of the property it',
+         'breaks is run against it (`selftest/run_seeded.py`). `FIX-<D>`: revert of a `fix:` commit (a defect of the original tree).',
+         '`Cxx-k`: round 1, `R2-Cxx-k`: round 2, `R3-…`: round 3 (independent sub-agents, see DESIGN.md section 11).',
+         '"first run" is the verdict of the machinery as it was when the change arrived; "latest" after any strengthening.', '',
+         '| id | property | what it needs to manifest | first run | latest | keys reported (latest) | s |', '|---|---|---|---|---|---|---|']
+nf = nl = tot = 0
+for sid in sorted(set(first) | set(latest)):
     meta = json.load(open(os.path.join(V, 'seeded', sid, 'meta.json')))
-    for p, (ex, keys, wall) in res[sid]['checks'].items():
-        own = p == meta['property']
-        if own:
-            tot += 1
-            det += 1 if ex == 1 and keys else 0
-        needs = (meta.get('needs_to_manifest') or meta.get('summary') or '').replace('\n', ' ').replace('|', '/')[:220]
-        lines.append('| %s | %s | %s | %s | %s | %s | %s | %s |' % (sid, meta['property'], needs, p, res[sid]['tier'], ex, ', '.join('`%s`' % k for k in keys[:4]), wall))
-lines += ['', 'Detected by the check of the broken property: **%d / %d**.' % (det, tot)]
+    f = first.get(sid)
+    l = latest.get(sid, (f[0], f[1], f[2], None) if f else None)
+    tot += 1
+    nf += 1 if f and f[0] else 0
+    nl += 1 if l and l[0] else 0
+    needs = (meta.get('needs_to_manifest') or meta.get('summary') or '').replace('\n', ' ').replace('|', '/')[:200]
+    lines.append('| %s | %s | %s | %s | %s | %s | %s |' % (sid, meta['property'], needs, ('detected' if f[0] else '**missed**') if f else '-',
+                 'detected' if l and l[0] else '**missed**', ', '.join('`%s`' % k for k in (l[1] if l else [])[:3]), l[2] if l else ''))
+lines += ['', 'Detected by the quick check of the broken property: first run **%d / %d**, latest **%d / %d**.' % (nf, tot, nl, tot)]
 open(os.path.join(V, 'selftest', 'RESULTS.md'), 'w').write('\n'.join(lines) + '\n')
-print('%d / %d detected' % (det, tot))
+print('first %d / %d, latest %d / %d' % (nf, tot, nl, tot))
